@@ -36,3 +36,27 @@ let hex_of_str (s : n list) : string =
   String.concat "" (List.map (fun b -> Printf.sprintf "%02x" (int_of_n b)) s)
 
 let split_tab (line : string) : string list = String.split_on_char '\t' line
+
+(* ---- extraction re-validation (checks/common.py vm_crosscheck, DESIGN 14.6) ----
+   With VM_SAMPLE=<stride>:<offset> in the environment a driver prints, for every case whose running index i has
+   i mod stride = offset, one line  VMCASE <TAB> raw input fields ... <TAB> the model's outputs as COQ TERMS.
+   The check re-evaluates the model on the same inputs inside coqc (vm_compute) and demands syntactic equality. *)
+let (vm_n, vm_off) : int * int =
+  match Sys.getenv_opt "VM_SAMPLE" with
+  | Some s ->
+    (match String.split_on_char ':' s with
+     | [a; b] -> (try (int_of_string a, int_of_string b) with _ -> (0, 0))
+     | [a] -> (try (int_of_string a, 0) with _ -> (0, 0))
+     | _ -> (0, 0))
+  | None -> (0, 0)
+let vm_pick (i : int) : bool = vm_n > 0 && i mod vm_n = vm_off mod vm_n
+
+let coq_bool (b : bool) : string = if b then "true" else "false"
+let coq_n (x : n) : string = Printf.sprintf "%d%%N" (int_of_n x)
+let coq_z (x : z) : string = Printf.sprintf "(%d)%%Z" (int_of_z x)
+let coq_nat (x : nat) : string = Printf.sprintf "%d%%nat" (int_of_nat x)
+let coq_list (f : 'a -> string) (l : 'a list) : string = "[" ^ String.concat "; " (List.map f l) ^ "]"
+let coq_nlist (l : n list) : string = "([" ^ String.concat "; " (List.map (fun b -> string_of_int (int_of_n b)) l) ^ "]%N)"
+let coq_option (f : 'a -> string) (o : 'a option) : string =
+  match o with None -> "None" | Some x -> "(Some " ^ f x ^ ")"
+let coq_pair (f : 'a -> string) (g : 'b -> string) ((a, b) : 'a * 'b) : string = "(" ^ f a ^ ", " ^ g b ^ ")"
